@@ -150,9 +150,7 @@ def gen_bracket(rng, ic):
         if rng.chance(1, 3):
             sample = ']'
     elif form in (4, 5, 6):                  # [:class:] alone, with members, with a backslash last
-        # a matching list with [:space:] also matches the line's own terminating newline (finding KF-BRK-NEWLINE,
-        # canonical inputs in corpus/C14-known.json): [:space:] is generated in non-matching lists only
-        name = rng.choice(sorted(k for k in CLASSES if neg or k != 'space'))
+        name = rng.choice(sorted(CLASSES))
         rng_nv, rng_ic, smp = CLASSES[name]
         nv_items.insert(rng.below(len(nv_items) + 1), '[:%s:]' % name)
         py_items.append(rng_ic if ic else rng_nv)
@@ -449,7 +447,7 @@ def run(ctx):
                     nl = vlib.unhx(o[2:])
                     # lbuf_edit(xb, text, i, i + 1) as the buffer core stores it (modelled by the C01/C04 groups, only
                     # mirrored here): text without a final newline gets one; empty text leaves no line.  Both arise
-                    # only when the match swallowed the terminator (KF-BRK-NEWLINE)
+                    # only when the match swallowed the terminator (as under the repaired defect 86d0c64)
                     mstate[i]['buf'][ln] = nl if (nl == b'' or nl.endswith(b'\n')) else nl + b'\n'
                 elif o != 'U':
                     mstate[i]['ok'] = False
